@@ -13,6 +13,7 @@
 import FtProofs.Lemmas.Intersect
 import FtProofs.Lemmas.Compute
 import FtProofs.Lemmas.MergeInf
+import FtProofs.Lemmas.MergeEmit
 set_option linter.unusedSectionVars false
 set_option linter.unusedSimpArgs false
 set_option linter.unusedVariables false
@@ -216,6 +217,12 @@ theorem roundsInf_round (radix : Option Nat) (lists : List (List Int)) :
           roundsInf radix (((chunks (clampRadix radix lists.length) lists).map insertMerge).map (·.2))
       else 0 :=
   roundsInf_eq radix lists
+
+/-- a merge emits every coordinate of its lists exactly once: what it leaves for the next
+    round is the sorted union of its lists -/
+theorem insertMerge_leaves_sorted_union (lists : List (List Int)) :
+    (insertMerge lists).2 = pySort lists.flatten :=
+  insertMerge_sorted lists
 
 /-- **Payload independence (partial)**: the count is a function of the coordinate skeleton
     alone — PROVIDED every element the walk iterates over is empty exactly when its skeleton
